@@ -282,6 +282,19 @@ Theorem C16_cartesian_diagonal_members : forall a b x y, In (x, y) (cart_diag a 
 Proof. exact cart_diag_In. Qed.
 Print Assumptions C16_cartesian_diagonal_members.
 
+(* the output order of the implementation (anti-diagonals) is a permutation of the row-major product: same count, same distinctness *)
+Theorem C16_cartesian_diagonal_permutation : forall a b, Permutation (cart_diag a b) (cart a b).
+Proof. exact cart_diag_perm. Qed.
+Print Assumptions C16_cartesian_diagonal_permutation.
+
+Theorem C16_cartesian_diagonal_count : forall a b, length (cart_diag a b) = (length a * length b)%nat.
+Proof. exact cart_diag_length. Qed.
+Print Assumptions C16_cartesian_diagonal_count.
+
+Theorem C16_cartesian_diagonal_nodup : forall a b, NoDup a -> NoDup b -> NoDup (cart_diag a b).
+Proof. exact cart_diag_NoDup. Qed.
+Print Assumptions C16_cartesian_diagonal_nodup.
+
 (* count / contains / find *)
 Theorem C16_count_occurrences : forall x l, count x l = Z.of_nat (count_occ Z.eq_dec l x).
 Proof. exact count_count_occ. Qed.
